@@ -37,6 +37,7 @@ def ops : PointOps (ZMod 7) where
   containsPoint x y := decide ((y * y - (x ^ 3 + 2 * x + 1)) % 5 = 0)
   mkPoint x y := mk x y
   fromAffine A := A
+  isInfObj A := decide (A = 0)
 
 /-- square roots modulo 5 by table -/
 def sqrt (a _p : ℤ) : Res ℤ := if a = 0 then .ok 0 else if a = 1 then .ok 1 else if a = 4 then .ok 2 else .error .squareRoot
@@ -62,17 +63,18 @@ theorem base : PointOpsCorrect ops (1 : ZMod 7) id xc (fun _ => True) where
     refine ⟨yval A, by simp [ops, show A ≠ 0 from h], ?_, ?_⟩ <;> (revert A; decide)
   scale A _ := ⟨A, rfl, trivial, rfl⟩
   fromAffine A _ := ⟨trivial, rfl⟩
+  isInfObj A _ h := by simp [ops, show A ≠ 0 from h]
 
 theorem correct : RecoverOpsCorrect ops (1 : ZMod 7) id xc (fun _ => True) where
   toPointOpsCorrect := base
   containsPoint_iff x y := by simp [ops, OnC]
   mkPoint_valid := by
-    intro x y hx0 hx1 hy0 hy1 hc
+    intro x y hx0 hx1 hy0 hy1 hc _
     have hx1 : x < 5 := hx1
     have hy1 : y < 5 := hy1
     interval_cases x <;> interval_cases y <;> revert hc <;> decide
   mkPoint_neg := by
-    intro x y y' hx0 hx1 hy0 hy1 hz0 hz1 hc hs
+    intro x y y' hx0 hx1 hy0 hy1 hz0 hz1 hc _ hs
     have hx1 : x < 5 := hx1
     have hy1 : y < 5 := hy1
     have hz1 : y' < 5 := hz1
